@@ -690,6 +690,9 @@ struct ml
     {
       S const copy{A};
       want_m(c, "matrix::object(other storage)", copy, pa);
+      S assigned{mx::identity<S>()};
+      assigned = A;
+      want_m(c, "matrix::object::operator=(other storage)", assigned, pa, "static-target");
       using O = std::conditional_t<std::is_same_v<T, int>, long, int>;
       using D = fm::matrix::static_<O, N, N>;
       want_m(c, "matrix::structure_cast", mx::structure_cast<D, fcppt::cast::static_cast_fun>(A), pa);
@@ -1053,6 +1056,9 @@ struct vl
     {
       S const copy{u};
       want_v(c, opn("object(other storage)").c_str(), copy, pu);
+      S assigned{K::template fill<S>(static_cast<T>(42))};
+      assigned = u;
+      want_v(c, opn("object::operator=(other storage)").c_str(), assigned, pu, "static-target");
       using O = std::conditional_t<std::is_same_v<T, int>, long, int>;
       want_v(c, opn("structure_cast").c_str(), K::template scast<typename K::template st<O, N>>(u), pu);
     }
